@@ -153,6 +153,35 @@ pub fn run(tier: Tier, seed: u64) -> i32 {
     let started = Instant::now();
     let deadline = Deadline::new(tier.wall_cap());
     let mut total = Stats::default();
+    // far beyond the enumerated scope: ten X inputs and a clock (3 x 1024 executed rows per source row)
+    {
+        let mut sigs: Vec<Sig> = (0..10).map(|i| Sig::inp(&format!("I{i}"), 1, 0)).collect();
+        sigs.insert(3, Sig::out("Q", 4));
+        sigs.push(Sig::inp("CLK", 1, 0));
+        let mut header: Vec<String> = (0..10).rev().map(|i| format!("I{i}")).collect();
+        header.push("CLK".into());
+        header.push("Q".into());
+        let mut row: Vec<Entry> = (0..10).map(|_| Entry::X).collect();
+        row.push(Entry::C);
+        row.push(l(5));
+        let prog = Program { header, body: vec![Stmt::Row(row.clone()), Stmt::Loop("k".into(), lit(2), vec![Stmt::Row(row)])] };
+        let text = text(&prog);
+        let script = vec![Step::Ans(vec![("Q".into(), V::Num(5))])];
+        let r = ref_run_fuel(&prog, &sigs, &script, 100_000, 20_000);
+        let mut opts = RunOpts::new(r.items.len() + 1);
+        opts.repeat_last = true;
+        opts.budget = 10_000_000;
+        let obs = run_dynamic(&text, &sigs, true, &script, &opts);
+        total.evals += 1;
+        total.nontrivial += 1;
+        total.witness("ten_x_inputs_and_a_clock");
+        let proj = Proj { input_values: true, expected: true, output: false, checked_kind: true, lines: false, vars: false, verdicts: false };
+        if let Some((k, m)) = run_mismatch(&r, &obs, proj, None) {
+            total.violation(&format!("large scale: {}", classify(&m)), 1 << 60, format!("ten X inputs and a clock\n{text}first difference at {m}"), || {
+                json!({"kind": "dynamic", "text": text, "signals": sigs_json(&sigs), "driver_overrides_write_input": true, "script": crate::driver::script_json(&script), "max_next": k + 2, "after_end": 0, "continue_after_error": false, "seed": 1, "repeat_last": true, "extra_known": [], "expected": ref_items_brief(&r).into_iter().skip(k.saturating_sub(1)).take(4).collect::<Vec<_>>(), "observed": obs_items_brief(&obs).into_iter().take(k + 3).collect::<Vec<_>>(), "mismatch": m})
+            });
+        }
+    }
     for cfg in configs(tier) {
         let header: Vec<String> = cfg.header.clone();
         // shape families: 0 = plain menus, 1.. = with one bits(2,k) pair
@@ -252,7 +281,7 @@ pub fn run(tier: Tier, seed: u64) -> i32 {
         seed,
         rule: "every combination of per-column entries {0,1,X,C,Z,(k)} / {5,X,C,(k+1),Z} / expected {X,Z,2,(k)} (and bits(2,k) over adjacent columns), in each of 4 program forms, for each configuration; mixed-radix index decoded injectively; a case is non-trivial if the row holds X or C in an input column".into(),
         assumptions: vec!["reference expansion in refsem.rs::do_row is the oracle".into(), "loop bounds are >= 1 here (bounds <= 0 are C01's)".into()],
-        required_witnesses: vec!["x_expansion", "c_expansion", "x_and_c_composed", "bits_row", "depth 0", "loop depth 1", "loop depth 2", "repeat row"],
+        required_witnesses: vec!["ten_x_inputs_and_a_clock", "x_expansion", "c_expansion", "x_and_c_composed", "bits_row", "depth 0", "loop depth 1", "loop depth 2", "repeat row"],
         exhaustive_note: "all row shapes over the stated menus for every configuration and program form".into(),
         e1: false,
     };
